@@ -291,6 +291,16 @@ theorem dirty_parsed (c : Codec) (a : BinArchive) (f : TextFormat) (e : Endian) 
     · cases h
     · cases h
 
+/-- The same through the other parsing constructor: `from_bytes` = `BinArchive::from_bytes` then
+`from_archive`, so its result is not dirty either — whatever public constructor produced the archive. -/
+theorem dirty_parsed_bytes (c : Codec) (raw : Bytes) (f : TextFormat) (e : Endian) (t : TextArchive)
+    (h : TextArchive.fromBytes c raw f e = .ok t) : t.isDirty = false := by
+  unfold TextArchive.fromBytes at h
+  split at h
+  · exact dirty_parsed c _ f e t h
+  · cases h
+  · cases h
+
 /-- The title is the last one set. -/
 theorem title_spec (f : TextFormat) (e : Endian) (h : List Op) : (run f e h).getTitle = titleOf h := by
   rw [run_eq]
